@@ -39,14 +39,22 @@ Origin == 1            \* the point (0,0)
 
 At(k) == IF k <= Len(ops) THEN ops[k] ELSE Op("none", <<>>)
 
+\* the point the subpath open at position k began with (0 = none)
+SubStart(k) ==
+  LET S == {j \in 1..(k - 1) : ops[j].op = "MoveTo"} IN
+  IF S = {} THEN 0 ELSE ops[CHOOSE j \in S : \A j2 \in S : j2 <= j].a[1]
+
 \* returns <<token, advance, new current point>>
 SerStep(k) ==
   LET o == ops[k]  n1 == At(k + 1)  n2 == At(k + 2)  n3 == At(k + 3) IN
   CASE o.op = "Close" ->
-         (CASE n1.op = "Stroke" -> <<Tok("s", <<>>), 2, cur>>
-            [] n1.op = "FillAndStroke" /\ n1.a = <<1>> -> <<Tok("b", <<>>), 2, cur>>
-            [] n1.op = "FillAndStroke" /\ n1.a = <<2>> -> <<Tok("b*", <<>>), 2, cur>>
-            [] OTHER -> <<Tok("h", <<>>), 1, cur>>)
+         \* the parser keeps `last` across h / s / b: so does the serializer's current point
+         \* (deviation: a serializer that follows the graphics model and moves back to the subpath's start)
+         LET c == IF "close_moves_current" \in Dev THEN SubStart(k) ELSE cur IN
+         (CASE n1.op = "Stroke" -> <<Tok("s", <<>>), 2, c>>
+            [] n1.op = "FillAndStroke" /\ n1.a = <<1>> -> <<Tok("b", <<>>), 2, c>>
+            [] n1.op = "FillAndStroke" /\ n1.a = <<2>> -> <<Tok("b*", <<>>), 2, c>>
+            [] OTHER -> <<Tok("h", <<>>), 1, c>>)
     [] o.op = "MoveTo" -> <<Tok("m", o.a), 1, o.a[1]>>
     [] o.op = "LineTo" -> <<Tok("l", o.a), 1, o.a[1]>>
     [] o.op = "CurveTo" ->
